@@ -1,4 +1,4 @@
-//! Kani harnesses over `warp-math` (property C19). See /verif/DESIGN.md section 4.
+//! Kani harnesses over the byte codecs (properties C12, C13). See /verif/DESIGN.md section 4.
 #![allow(dead_code, unused_imports, clippy::all)]
 include!("../../common/macros.rs");
 
@@ -10,10 +10,8 @@ pub(crate) use shim as kani;
 #[cfg(kani)]
 pub(crate) use ::kani;
 
-pub mod c19_scalar;
-pub mod c19_fixed;
-pub mod c19_trig;
 pub mod stubs;
+pub mod c12_abi;
 
 #[cfg(not(kani))]
 include!(concat!(env!("OUT_DIR"), "/registry.rs"));
